@@ -25,7 +25,7 @@ import (
 	"verif/harness/xt"
 )
 
-const c14Rule = "rapid over (endpoint: SSO via query, SSO via form with SAMLEncoding=DEFLATE, logout via form, logout via query) x (inflated size S from 1 MiB to 256 MiB in the quick tier, to 1 GiB in the thorough tier) x (padding placed in a comment, in element text, in an attribute value, or after the document element) x (padding byte) x (wrapper otherwise valid / issuer unregistered): a DEFLATE stream of about S/1000 bytes is sent as one request, alone, on one goroutine; runtime.MemStats.TotalAlloc is read before and after ServeHTTP. x (compression level: fastest, about 800:1, or best, about 1030:1 - the format's maximum): Oracle: the allocation during the call is at most 160 MiB whatever S is, and a request with S >= 32 MiB (half an order of magnitude above the 10 MB the statement names) is not accepted (no CreateAuthRequest, no Success). Sizes below 32 MiB are executed and reported, not asserted (the statement fixes only the order of magnitude of the cap). Non-trivial: S >= 32 MiB with a compressed size below 1 MiB. Distinct by (endpoint, placement, size, wrapper validity)."
+const c14Rule = "rapid over (endpoint: SSO via query, SSO via form with SAMLEncoding=DEFLATE, logout via form, logout via query) x (inflated size S from 1 MiB to 256 MiB in the quick tier, to 1 GiB in the thorough tier) x (padding placed in a comment, in element text, in an attribute value, or after the document element) x (padding byte) x (wrapper otherwise valid / issuer unregistered): a DEFLATE stream of about S/1000 bytes is sent as one request, alone, on one goroutine; runtime.MemStats.TotalAlloc is read before and after ServeHTTP. x (compression level: fastest, about 800:1, or best, about 1030:1 - the format's maximum) x (one DEFLATE stream, or the message cut into 4 / 9 / 40 streams each finished on its own) x (padding of one repeated byte, or - on the form endpoints - text that compresses only 10:1, so that the payload itself is megabytes): Oracle: the allocation during the call is at most 160 MiB whatever S is, and a request with S >= 32 MiB (half an order of magnitude above the 10 MB the statement names) is not accepted (no CreateAuthRequest, no Success). Sizes below 32 MiB are executed and reported, not asserted (the statement fixes only the order of magnitude of the cap). Non-trivial: S >= 32 MiB with a compressed size below 1 MiB. Distinct by (endpoint, placement, size, wrapper validity)."
 
 type C14Case struct {
 	Endpoint  string `json:"endpoint"` // sso-query | sso-form | slo-form | slo-query
@@ -35,6 +35,8 @@ type C14Case struct {
 	Valid     bool   `json:"valid_wrapper"`
 	Container string `json:"container,omitempty"` // "" raw DEFLATE (what the binding prescribes) | zlib (RFC 1950) | gzip
 	Best      bool   `json:"best_compression,omitempty"`
+	// Streams > 1: the message is cut into that many DEFLATE streams, each finished on its own, sent back to back.
+	Streams int `json:"streams,omitempty"`
 }
 
 var (
@@ -44,7 +46,7 @@ var (
 
 // c14Payload returns the DEFLATE stream of a request whose padding inflates to sizeMiB, produced without materialising the inflated text.
 func c14Payload(c C14Case, spec world.Spec, now time.Time) []byte {
-	key := fmt.Sprintf("%s/%d/%s/%s/%v/%s/%v", c.Endpoint[:3], c.SizeMiB, c.Placement, c.Pad, c.Valid, c.Container, c.Best)
+	key := fmt.Sprintf("%s/%d/%s/%s/%v/%s/%v/%d", c.Endpoint[:3], c.SizeMiB, c.Placement, c.Pad, c.Valid, c.Container, c.Best, c.Streams)
 	c14Mu.Lock()
 	defer c14Mu.Unlock()
 	if b, ok := c14Cache[key]; ok {
@@ -94,23 +96,58 @@ func c14Payload(c C14Case, spec world.Spec, now time.Time) []byte {
 	if c.Best {
 		level = flate.BestCompression
 	}
-	switch c.Container {
-	case "zlib":
-		w, _ = zlib.NewWriterLevel(&buf, level)
-	case "gzip":
-		w, _ = gzip.NewWriterLevel(&buf, level)
-	default:
-		w, _ = flate.NewWriter(&buf, level)
+	open := func() {
+		switch c.Container {
+		case "zlib":
+			w, _ = zlib.NewWriterLevel(&buf, level)
+		case "gzip":
+			w, _ = gzip.NewWriterLevel(&buf, level)
+		default:
+			w, _ = flate.NewWriter(&buf, level)
+		}
 	}
+	open()
 	w.Write([]byte(pre))
 	chunk := bytes.Repeat([]byte(c.Pad), 1<<20)
+	if c.Pad == "noise" {
+		// text that compresses about 10:1 only: words from a small vocabulary in pseudo-random order
+		chunk = c14Noise(1 << 20)
+	}
+	every := 0
+	if c.Streams > 1 {
+		every = (c.SizeMiB + c.Streams - 1) / c.Streams
+	}
 	for i := 0; i < c.SizeMiB; i++ {
+		if every > 0 && i > 0 && i%every == 0 {
+			w.Close()
+			open()
+		}
 		w.Write(chunk)
 	}
 	w.Write([]byte(post))
 	w.Close()
 	out := append([]byte(nil), buf.Bytes()...)
 	c14Cache[key] = out
+	return out
+}
+
+// c14Noise returns n bytes of XML-safe text that compresses about 10:1 (deterministic): blocks of 6 unpredictable characters
+// followed by 58 equal ones.
+func c14Noise(n int) []byte {
+	out := make([]byte, 0, n)
+	x := uint64(0x9E3779B97F4A7C15)
+	const alphabet = "abcdefghijklmnopqrstuvwxyzABCDEFGHIJKLMNOPQRSTUVWXYZ0123456789 ._"
+	for len(out) < n {
+		x ^= x << 13
+		x ^= x >> 7
+		x ^= x << 17
+		for k := 0; k < 6 && len(out) < n; k++ {
+			out = append(out, alphabet[(x>>(8*uint(k)))&63])
+		}
+		for k := 0; k < 58 && len(out) < n; k++ {
+			out = append(out, 'A')
+		}
+	}
 	return out
 }
 
@@ -127,6 +164,7 @@ func genC14Case(t *rapid.T) C14Case {
 		Valid:     rapid.IntRange(0, 3).Draw(t, "valid") != 0,
 		Container: rapid.SampledFrom([]string{"", "", "", "zlib", "gzip"}).Draw(t, "container"),
 		Best:      rapid.Bool().Draw(t, "best"),
+		Streams:   rapid.SampledFrom([]int{0, 0, 0, 4, 9, 40}).Draw(t, "streams"),
 	}
 }
 
@@ -175,7 +213,13 @@ func c14Run(c C14Case) (vs []*ev.Violation, alloc uint64, compressed int, accept
 	if alloc > c14AllocLimit {
 		vs = append(vs, ev.V("C14/allocation-proportional-to-inflated-size", "%s, %d MiB inflated (%d KiB compressed, padding in %s): %d MiB allocated while serving the request (limit %d MiB)", c.Endpoint, c.SizeMiB, compressed>>10, c.Placement, alloc>>20, c14AllocLimit>>20))
 	}
-	if c.SizeMiB >= c14AcceptLimitMiB && accepted {
+	// With several streams only the first one is the message for an inflater that follows the format (what comes after the
+	// final block is trailing data it never looks at): the acceptance clause is then about the size of that first stream.
+	effective := c.SizeMiB
+	if c.Streams > 1 {
+		effective = (c.SizeMiB + c.Streams - 1) / c.Streams
+	}
+	if effective >= c14AcceptLimitMiB && accepted {
 		vs = append(vs, ev.V("C14/oversized-request-accepted", "%s, %d MiB inflated (%d KiB compressed, padding in %s) was accepted", c.Endpoint, c.SizeMiB, compressed>>10, c.Placement))
 	}
 	return
@@ -196,7 +240,7 @@ func TestC14(t *testing.T) {
 		if alloc > 64<<20 {
 			bucket = ">64MiB"
 		}
-		col.Case(nt, ev.Fingerprint(c.Endpoint, c.Placement, c.SizeMiB, c.Valid, c.Container, c.Best), []string{"endpoint/" + c.Endpoint, "placement/" + c.Placement, fmt.Sprintf("size/%04dMiB", c.SizeMiB), fmt.Sprintf("accepted=%v", accepted), "alloc" + bucket}, func() any {
+		col.Case(nt, ev.Fingerprint(c.Endpoint, c.Placement, c.SizeMiB, c.Valid, c.Container, c.Best, c.Streams), []string{"endpoint/" + c.Endpoint, "placement/" + c.Placement, fmt.Sprintf("streams/%d", c.Streams), fmt.Sprintf("size/%04dMiB", c.SizeMiB), fmt.Sprintf("accepted=%v", accepted), "alloc" + bucket}, func() any {
 			return map[string]any{"case": c, "compressed_bytes": compressed, "allocated_mib": alloc >> 20, "accepted": accepted}
 		})
 		return vs
@@ -209,22 +253,42 @@ func TestC14(t *testing.T) {
 func TestC14Ladder(t *testing.T) {
 	col := ev.For("C14", "exploration", c14Rule)
 	runPlain(t, col, "TestC14", func(fail func(*ev.Violation, any)) {
+		var cases []C14Case
 		for _, ep := range []string{"sso-query", "sso-form", "slo-form", "slo-query"} {
 			for _, size := range []int{4, 9, 10, 11, 16, 24, 32, 33, 36, 40, 41, 44, 64} {
 				for _, best := range []bool{false, true} {
-					c := C14Case{Endpoint: ep, SizeMiB: size, Placement: "comment", Pad: "A", Valid: true, Best: best}
-					vs, alloc, compressed, accepted := c14Run(c)
-					bucket := "<=64MiB"
-					if alloc > 64<<20 {
-						bucket = ">64MiB"
-					}
-					col.Case(size >= c14AcceptLimitMiB && compressed < 1<<20, ev.Fingerprint(c.Endpoint, c.Placement, c.SizeMiB, c.Valid, c.Container, c.Best), []string{"ladder/endpoint/" + ep, fmt.Sprintf("ladder/size/%04dMiB", size), fmt.Sprintf("ladder/accepted=%v", accepted), "ladder/alloc" + bucket}, func() any {
-						return map[string]any{"case": c, "compressed_bytes": compressed, "allocated_mib": alloc >> 20, "accepted": accepted}
-					})
-					for _, v := range vs {
-						fail(v, c)
-					}
+					cases = append(cases, C14Case{Endpoint: ep, SizeMiB: size, Placement: "comment", Pad: "A", Valid: true, Best: best})
 				}
+			}
+			// the other places a decoder may stop looking, and other ways to pack the same amount
+			for _, size := range []int{32, 128} {
+				for _, pl := range []string{"after-root", "text", "attribute"} {
+					cases = append(cases, C14Case{Endpoint: ep, SizeMiB: size, Placement: pl, Pad: "A", Valid: true, Best: true})
+				}
+				for _, streams := range []int{4, 9} {
+					cases = append(cases, C14Case{Endpoint: ep, SizeMiB: size, Placement: "comment", Pad: "A", Valid: true, Streams: streams})
+					cases = append(cases, C14Case{Endpoint: ep, SizeMiB: size, Placement: "after-root", Pad: " ", Valid: true, Streams: streams})
+				}
+			}
+		}
+		// low compression ratio: the payload itself is megabytes (only a form body carries that much)
+		for _, ep := range []string{"sso-form", "slo-form"} {
+			for _, size := range []int{32, 48} {
+				cases = append(cases, C14Case{Endpoint: ep, SizeMiB: size, Placement: "comment", Pad: "noise", Valid: true})
+			}
+		}
+		for _, c := range cases {
+			ep, size := c.Endpoint, c.SizeMiB
+			vs, alloc, compressed, accepted := c14Run(c)
+			bucket := "<=64MiB"
+			if alloc > 64<<20 {
+				bucket = ">64MiB"
+			}
+			col.Case(size >= c14AcceptLimitMiB && compressed < 1<<20, ev.Fingerprint(c.Endpoint, c.Placement, c.SizeMiB, c.Valid, c.Container, c.Best, c.Streams, c.Pad), []string{"ladder/endpoint/" + ep, fmt.Sprintf("ladder/size/%04dMiB", size), fmt.Sprintf("ladder/accepted=%v", accepted), "ladder/alloc" + bucket, "ladder/placement/" + c.Placement, fmt.Sprintf("ladder/streams/%d", c.Streams), "ladder/pad/" + map[bool]string{true: "noise", false: "constant"}[c.Pad == "noise"]}, func() any {
+				return map[string]any{"case": c, "compressed_bytes": compressed, "allocated_mib": alloc >> 20, "accepted": accepted}
+			})
+			for _, v := range vs {
+				fail(v, c)
 			}
 		}
 	})
